@@ -16,7 +16,7 @@ RULE = ("1-4 homogeneous equilibria built as small integer combinations (multipl
         "zero into the initial state).  Every case is evaluated in the 12 configurations {Lin, Log, Square} x "
         "rref_equil x rref_preserv with backend=sympy (+ Lin with new_eq_params=False) at the true state and at four "
         "violating states (one K scaled, one initial amount shifted, one concentration scaled, state moved along one "
-        "reaction).  Non-trivial = at least two equilibria sharing a species and a charged species takes part; "
+        "reaction; with rref_equil=True only 2 resp. 1 of the four, see _RREF_EQUIL_STATES).  Non-trivial = at least two equilibria sharing a species and a charged species takes part; "
         "distinct by case digest.")
 ASSUMPTIONS = ["vlib/gen_c07.py COMP table (hand-checked compositions of 29+ species) and the balanced pool reactions "
                "(asserted balanced against that table at import)",
@@ -29,6 +29,10 @@ ZERO_TOL = 1e-30      # |residual| <= ZERO_TOL*scale at 50 digits counts as zero
 NONZERO_TOL = 1e-20   # a violated state must give |residual| > NONZERO_TOL somewhere (perturbations are >= 1e-6 relative)
 
 NUMSYS = ["Lin", "Log", "Square"]
+# sympy's symbolic rref of (stoichiometry | ln K) inside chempy dominates the cost (25-50 ms per call), so with
+# rref_equil=True only the states that speak about the rows it produces are evaluated: the true state always, the two
+# mass-action violations without rref_preserv, the mixed violation with it.  rref_equil=False: all five states.
+_RREF_EQUIL_STATES = {False: ("true_state", "K_scaled", "moved_along_reaction"), True: ("true_state", "conc_scaled")}
 
 
 def _classes():
@@ -174,6 +178,8 @@ def check_resid(case, ctx):
                 ns = classes[kind](es, backend="sympy", rref_equil=rref_equil, rref_preserv=rref_preserv)
                 n_exp = M.n_equations(rref_equil, rref_preserv)
                 for what, conc, init, Ks in states:
+                    if rref_equil and what not in _RREF_EQUIL_STATES[rref_preserv]:
+                        continue
                     params = [_R(init[s]) for s in M.species] + [_R(k) for k in Ks]
                     fl = ns.f(_yvec(kind, conc, M.species), params)
                     vals = _values(fl)
